@@ -159,7 +159,7 @@ func (e *env) handler(s *kit.Sess, c *kit.Call, w *kit.Writers) kit.Result {
 
 // ---- generators --------------------------------------------------------------------
 
-var texts = []string{"plain", "two words", "héllo wörld", "日本語 テキスト", `quo"te\back`, "x@y.z", "a,b;c:d", "trailing space ", "UPPER lower 123", "€ uro — dash", "tab\there", "latin1 caf\xe9 \xff\xfe", "\xc3(", "nul-free\x01ctl"}
+var texts = []string{"plain", "two words", "héllo wörld", "日本語 テキスト", `quo"te\back`, "x@y.z", "a,b;c:d", "trailing space ", "UPPER lower 123", "€ uro — dash", "tab\there", "latin1 caf\xe9 \xff\xfe", "\xc3(", "nul-free\x01ctl", "=?gb2312?B?1tDOxA==?=", "=?windows-1252?Q?caf=E9?= tail", "=?x-unknown?q?abc?="}
 
 func (e *env) text() string { return texts[e.rng.Intn(len(texts))] }
 
@@ -1186,7 +1186,7 @@ func main() {
 		Assumptions: []string{
 			"normalisation: envelope sender / reply-to default to From when nil; empty address lists, parameter maps and language lists are equivalent to NIL; parameter keys are lower-cased and the transfer encoding upper-cased with 7BIT as default; dates are compared to the second with their zone offset; a section's partial carries its offset only; APPENDLIMIT NIL is delivered as the maximum value",
 			"the backend supplies message/rfc822 data exactly for message/rfc822 parts and text data exactly for text/* parts, and extension data whenever BODYSTRUCTURE is requested (the server API's documented contract)",
-			"free-text fields do not contain RFC 2047 encoded-word look-alikes, NUL, CR or LF (they may contain arbitrary other bytes, including invalid UTF-8)",
+			"free-text fields do not contain RFC 2047 encoded-words in a charset the client decodes (utf-8, iso-8859-1, us-ascii; undecodable ones must be delivered unchanged), NUL, CR or LF (they may contain arbitrary other bytes, including invalid UTF-8)",
 		},
 		RaceFrames: []string{"imapclient.", "imapwire.", "imapserver."},
 		Shards:     func(string) int { return 12 },
